@@ -13,7 +13,7 @@ done
 W=/tmp/simcopy-$NAME
 mkdir -p $W/home
 rsync -a --delete --exclude target --exclude build.log /verif/sim/ $W/sim/
-sed -i "s|/repo|$TREE|g" $W/sim/Cargo.toml $W/sim/src/main.rs $W/sim/src/c15.rs $W/sim/miri_threads/Cargo.toml
+sed -i "s|/repo|$TREE|g" $W/sim/Cargo.toml $W/sim/src/main.rs $W/sim/src/c15.rs $W/sim/miri_threads/Cargo.toml $W/sim/build.rs
 [ -f $TREE/Cargo.lock ] || cp /repo/Cargo.lock $TREE/Cargo.lock
 cp /verif/known_findings.txt $W/home/
 export SIMCTL_HOME=$W/home CARGO_NET_OFFLINE=true RUSTFLAGS="--cfg emu8086_verif"
